@@ -248,6 +248,13 @@ def r4_padding(ctx):
     st = astx.stmt_of(am[0], pm) if am else None
     ctx.check(len(am) == 1 and isinstance(st, ast.Assign) and astx.u(st.targets[0]) == f.params[0] and st.lineno < first_loop, f, am[0] if am else f.node,
               "unlisted candidates are added as a last-place tie before scoring", "", "add_missing_cands is not applied to the profile before the scoring loop")
+    # "unlisted" is relative to the candidates registered with the profile - including those no ballot ranks - not to
+    # the candidates that happen to have been cast (whatever shape the completion code has)
+    amf = prog.find_func("add_missing_cands")
+    pp = amf.params[0]
+    reads = sorted({n.attr for n in astx.walk_all(amf.node) if isinstance(n, ast.Attribute) and astx.is_name(n.value, pp) and isinstance(n.ctx, ast.Load)})
+    ctx.check("candidates" in reads and "candidates_cast" not in reads, amf, amf.node, "the candidate universe of add_missing_cands is the profile's registered candidates",
+              str(reads), f"add_missing_cands reads {reads} of its profile: a registered candidate that appears on no ballot must still share the remaining points")
 
 
 def r5_grouping_direction(ctx):
